@@ -152,10 +152,9 @@ func (u *Upstream) Close(ctx context.Context, opts ...UpstreamCloseOption) error
 	}
 	// also while the stream is resuming: the resume goes on and what is still unacknowledged is retransmitted
 	// before the close request (the wait is bounded by ctx and the close timeout)
-	if err := u.waitToSendAllDataPointsAndReceiveAllAck(ctx); err != nil {
+	if err := u.waitToSendAllDataPointsAndReceiveAllAck(ctx, beforeStatus == streamStatusResuming); err != nil {
 		u.logger.Warnf(ctx, "Failed to waitSentAllDataPointsAndReceivedAllAck: %+v", err)
 	}
-	_ = beforeStatus
 	return u.closeWithError(ctx, nil, opts...)
 }
 
@@ -225,13 +224,17 @@ func (u *Upstream) notifyClosedWithError(causeError error) {
 	})
 }
 
-func (u *Upstream) waitToSendAllDataPointsAndReceiveAllAck(ctx context.Context) error {
+func (u *Upstream) waitToSendAllDataPointsAndReceiveAllAck(ctx context.Context, resuming bool) error {
 	parentCtx, cancel := context.WithCancel(u.ctx)
 	defer cancel()
 	parentCtx, cancel = context.WithTimeout(parentCtx, u.closeTimeout)
 	defer cancel()
-	// (the flush waits for the flush loop, which is not running while the stream resumes: bounded by the close timeout too)
-	fctx, fcancel := context.WithTimeout(ctx, u.closeTimeout)
+	// (the flush waits for the flush loop, which is not running while the stream resumes: only then it is bounded by the
+	// close timeout too - otherwise the buffer is cut whatever the close timeout, also when it is 0)
+	fctx, fcancel := ctx, context.CancelFunc(func() {})
+	if resuming {
+		fctx, fcancel = context.WithTimeout(ctx, u.closeTimeout)
+	}
 	ferr := u.Flush(fctx)
 	fcancel()
 	if ferr != nil {
